@@ -9,7 +9,7 @@ from . import c08_sparse
 
 ID = "C08"
 LEVEL = "proof"
-PROPS_MODULE = "SymmModel.Props.C08All6"
+PROPS_MODULE = "SymmModel.Props.C08All7"
 THEOREMS = [
     "SymmModel.C08.locateAll_total",
     "SymmModel.C08.toDenseA_get",
@@ -149,9 +149,28 @@ THEOREMS = [
     "SymmModel.C08.allclose_fill_drop",
     "SymmModel.C08.setParams_getParams",
     "SymmModel.C08.setParams_lookup",
-    "SymmModel.C08.setParams_sectors"
+    "SymmModel.C08.setParams_sectors",
+    "SymmModel.C08.item_eq_elem",
+    "SymmModel.C08.item_eq_stored",
+    "SymmModel.C08.item_ok_iff",
+    "SymmModel.C08.item_error_iff",
+    "SymmModel.C08.item_error_kind",
+    "SymmModel.C08.item_phaseSync",
+    "SymmModel.C08.toComplex_eq_item",
+    "SymmModel.C08.toFloat_real",
+    "SymmModel.C08.toFloat_complex",
+    "SymmModel.C08.toInt_real",
+    "SymmModel.C08.toInt_of_int",
+    "SymmModel.C08.toInt_complex",
+    "SymmModel.C08.toBool_eq_item",
+    "SymmModel.C08.conv_error_of_item",
+    "SymmModel.C08.conv_eq_elem",
+    "SymmModel.C08.elem_of_toDense",
+    "SymmModel.C08.allclose_iff_toDense",
+    "SymmModel.C08.elem_iff_toDense",
+    "SymmModel.C08.allclose_of_empty_table"
 ]
-LEAN_FILES = ["SymmModel.Props.C08", "SymmModel.Proofs.DenseLemmas", "SymmModel.Props.C08b", "SymmModel.Props.C08All", "SymmModel.Proofs.DenseMore", "SymmModel.Props.C08c", "SymmModel.Props.C08All2", "SymmModel.Proofs.Dense3a", "SymmModel.Proofs.Dense3b", "SymmModel.Proofs.Dense3d", "SymmModel.Props.C08d", "SymmModel.Props.C08All3", "SymmModel.Proofs.Dense4a", "SymmModel.Proofs.Dense4b", "SymmModel.Proofs.Dense4c", "SymmModel.Props.C08e", "SymmModel.Props.C08All4", "SymmModel.Proofs.Dense5a", "SymmModel.Proofs.Dense5f", "SymmModel.Props.C08f", "SymmModel.Props.C08All5", "SymmModel.Proofs.Dense6a", "SymmModel.Proofs.Dense6b", "SymmModel.Proofs.Dense6c", "SymmModel.Proofs.Dense6d", "SymmModel.Model.Sparse", "SymmModel.Proofs.SparseLemmas", "SymmModel.Props.C08g", "SymmModel.Props.C08All6"]
+LEAN_FILES = ["SymmModel.Props.C08", "SymmModel.Proofs.DenseLemmas", "SymmModel.Props.C08b", "SymmModel.Props.C08All", "SymmModel.Proofs.DenseMore", "SymmModel.Props.C08c", "SymmModel.Props.C08All2", "SymmModel.Proofs.Dense3a", "SymmModel.Proofs.Dense3b", "SymmModel.Proofs.Dense3d", "SymmModel.Props.C08d", "SymmModel.Props.C08All3", "SymmModel.Proofs.Dense4a", "SymmModel.Proofs.Dense4b", "SymmModel.Proofs.Dense4c", "SymmModel.Props.C08e", "SymmModel.Props.C08All4", "SymmModel.Proofs.Dense5a", "SymmModel.Proofs.Dense5f", "SymmModel.Props.C08f", "SymmModel.Props.C08All5", "SymmModel.Proofs.Dense6a", "SymmModel.Proofs.Dense6b", "SymmModel.Proofs.Dense6c", "SymmModel.Proofs.Dense6d", "SymmModel.Model.Sparse", "SymmModel.Proofs.SparseLemmas", "SymmModel.Props.C08g", "SymmModel.Props.C08All6", "SymmModel.Props.C08h", "SymmModel.Proofs.SmallSparse"]
 PLANNED = []
 RULE = ("every listed operation on random abelian arrays (all symmetries, static/generic, sparse, real/complex) "
         "through method / symmray function / autoray dispatch; binary operations on operands with different stored "
